@@ -327,13 +327,27 @@ def r6_refused_insert_is_pure(ctx):
 
 
 
+def r7_classifiers_are_plain(ctx):
+    """SubscriptionResponse / SubscriptionError / Notification are tried in turn by the client: plain derived decoders"""
+    from .common import wire_decoders_plain
+    wire_decoders_plain(ctx, "C05.R7", (("SubscriptionPayload", r"jsonrpsee_types::response::SubscriptionPayload<'a, T>"), ("SubscriptionPayloadError", r"jsonrpsee_types::response::SubscriptionPayloadError<'a, T>"), ("Notification", r"jsonrpsee_types::request::Notification<'a, T>")), 3)
+
+
+def r8_client_builder_fields(ctx):
+    """the configured per-subscription buffer (and every other client setting) survives builder transformations"""
+    from .common import builder_field_crossing
+    builder_field_crossing(ctx, "C05.R8", r"^jsonrpsee_(ws_client|http_client|core::client|wasm_client)::", 3)
+    from .common import setter_arg_crossing
+    setter_arg_crossing(ctx, "C05.R8b", r"^<?jsonrpsee_(ws_client|http_client|core::client|wasm_client)::", 3)
+
+
 def rarr_every_element(ctx):
     """an array message is processed element by element to the end"""
     from .common import array_elements_all_processed
     array_elements_all_processed(ctx.F, ctx.R, "C05.ARR")
 
 
-RULES = [r1_classifier_agreement, r2_routing, r3_lag_and_close, r4_single_unsubscribe, r5_close_messages_are_not_lossy, r6_refused_insert_is_pure, rarr_every_element]
+RULES = [r1_classifier_agreement, r2_routing, r3_lag_and_close, r4_single_unsubscribe, r5_close_messages_are_not_lossy, r6_refused_insert_is_pure, r7_classifiers_are_plain, r8_client_builder_fields, rarr_every_element]
 
 LEVEL_TEXT = (
     "Structural necessary conditions of the client's notification demultiplexing decided from the type-checked program: "
